@@ -32,11 +32,11 @@ theorem storePrioAt (s : Store P) (pos : Nat) (fuel : Nat) (h : fuel ≥ 1) :
 
 /-- the two theorems above as rewrite rules for call sites -/
 theorem call_storeSwap (s : Store P) (a b n : Nat) :
-    callWith (exec prog (n + 1)) prog .storeSwap s [a, b] [] = (fun s' => (s', Val.unit)) <$> s.swap a b :=
+    callWith (exec prog (n + 1)) prog .storeSwap s [a, b] [] [] = (fun s' => (s', Val.unit)) <$> s.swap a b :=
   storeSwap s a b (n + 1) (by omega)
 
 theorem call_storePrioAt (s : Store P) (a n : Nat) :
-    callWith (exec prog (n + 1)) prog .storePrioAt s [a] [] = (fun p => (s, Val.prio p)) <$> s.prioAt a :=
+    callWith (exec prog (n + 1)) prog .storePrioAt s [a] [] [] = (fun p => (s, Val.prio p)) <$> s.prioAt a :=
   storePrioAt s a (n + 1) (by omega)
 
 /-! ## `PriorityQueue::heapify` -/
@@ -305,11 +305,11 @@ theorem pqBubbleUp (s : Store P) (position mapPosition : Nat) (fuel : Nat) (h : 
 /-! ## `PriorityQueue::up_heapify` -/
 
 theorem call_pqHeapify (s : Store P) (i n : Nat) (h : n ≥ s.size + 2) :
-    callWith (exec prog n) prog .pqHeapify s [i] [] = (fun s' => (s', Val.unit)) <$> MaxQ.heapify s i :=
+    callWith (exec prog n) prog .pqHeapify s [i] [] [] = (fun s' => (s', Val.unit)) <$> MaxQ.heapify s i :=
   pqHeapify s i n h
 
 theorem call_pqBubbleUp (s : Store P) (pos mp n : Nat) (h : n ≥ pos + 2) :
-    callWith (exec prog n) prog .pqBubbleUp s [pos, mp] [] = (fun r => (r.1, Val.nat r.2)) <$> MaxQ.bubbleUp s pos mp :=
+    callWith (exec prog n) prog .pqBubbleUp s [pos, mp] [] [] = (fun r => (r.1, Val.nat r.2)) <$> MaxQ.bubbleUp s pos mp :=
   pqBubbleUp s pos mp n h
 
 theorem bStep_post_size (s : Store P) (pos : Nat) (prio : P) :
@@ -338,13 +338,14 @@ theorem bubbleUp_post_size (s : Store P) (pos mp : Nat) :
   exact Post.bind (Post.triv _) fun _ _ => Post.bind (Post.triv _) fun _ _ => Post.pure hr
 
 /-- `PriorityQueue::up_heapify` = `MaxQ.upHeapify` -/
-theorem pqUpHeapify (s : Store P) (i : Nat) (fuel : Nat) (h : fuel ≥ s.size + i + 3) :
+theorem pqUpHeapify (s : Store P) (i : Nat) (fuel : Nat) (h : fuel ≥ s.size + min i s.heap.size + 3) :
     Src.run SrcGen.prog fuel .pqUpHeapify s [i] = (fun s' => (s', Val.unit)) <$> MaxQ.upHeapify s i := by
   obtain ⟨k, rfl⟩ : ∃ k, fuel = k + 1 := ⟨fuel - 1, by omega⟩
   src_enter [prog, SrcGen.pqUpHeapify]
   unfold MaxQ.upHeapify
   src_eval [pqUpHeapify_body]
-  refine bind_congr_ok fun tmp _ => ?_
+  refine bind_congr_ok fun tmp htmp => ?_
+  have hi : i < s.heap.size := getElem?_some_lt ((getU_ok_iff _ _ _ _).mp htmp)
   rw [call_pqBubbleUp _ _ _ _ (by omega)]
   src_eval
   refine bind_congr_ok fun r hr => ?_
